@@ -21,13 +21,25 @@ NEEDS = {
  "C16-should-instrument-cached-by-name": "a category-qualified selector on a name bound at two sites with different annotations, the first (in source order) not matching",
  "C17-activated-flag-set-at-exit": "a second activation attempt made while the probe is still active",
  "C18-hashvar-prefix-match": "an unknown meta-variable whose name extends a documented one (#values, #enterx)",
+ "C01b-aug-binop": "an instrumented augmented assignment on an object whose in-place operator differs from the binary one (list +=), visible outside the call",
+ "C02b-index-key-not-affixed": "an item store v[k] = val into a variable named in the selector (focus or context)",
+ "C03b-immediate-fork-skips-empty-parent": "a sibling sub-selector outer(leaf(b)) > mid > x whose first leaf call happens inside the next chain link, after mid is entered and before x is bound",
+ "C04b-overridable-value-not-reset": "an overridable probe whose pipeline filters: the override fires for one binding and declines for a later one in the same activation",
+ "C05b-proceed-exit-order": "a total probe whose close handler raises while a nested-selector probe is active, followed by further calls in the same activation",
+ "C06b-error-handler-exception": "an activation ending with an exception outside the Exception hierarchy (SystemExit, KeyboardInterrupt, GeneratorExit)",
+ "C07b-total-init-precreates-captures": "a focus-free selector capturing a variable of the outermost function that is not bound during some call (empty loop, raise before binding)",
+ "C11b-variant-cache-key-drops-category": "the same function probed twice with generic captures sharing an alias but differing in tag restriction",
+ "C12b-intercept-reversed": "two conditional overrides on one variable, the later-registered one's condition false while the earlier one's holds",
+ "C15b-nested-imm-incall-context": "the return-value sugar CALL as name as the last step of a > chain (g > f() as r)",
+ "C16b-log-before-absent-check": "an unsupplied declared-only variable captured as a non-focus variable by a selector whose event fires after the failed declaration",
+ "C18b-falsy-category": "a category that evaluates to a falsy non-tag value (x:0, x:'')",
 }
 rows = []
 for d in sorted(os.listdir(os.path.join(ROOT, "seeded"))):
     p = os.path.join(ROOT, "seeded", d)
     if not os.path.isdir(p):
         continue
-    prop = d.split("-")[0]
+    prop = d.split("-")[0].rstrip("b")
     subprocess.check_call(["git", "-C", "/repo", "apply", os.path.join(p, "patch.diff")])
     try:
         r = subprocess.run([os.path.join(ROOT, "check"), prop, "quick"], capture_output=True, text=True, cwd=ROOT)
